@@ -3,6 +3,7 @@
 import io
 from .. import components
 from .util import default_alignment, bytes2datastring
+from ..util import nan_to_text
 
 
 class TextWriter:
@@ -223,6 +224,9 @@ class TextWriter:
                 )
         elif opcode == "select":
             args = (f"(result {t})" for t in args[0])
+        elif opcode in ("f32.const", "f64.const") and args[0] != args[0]:
+            # NaN: str() would drop the sign and the payload
+            args = (nan_to_text(args[0], int(opcode[1:3])),)
         subtext = self._get_sub_string(args)
         if "\n" in subtext:
             return "(" + opcode + "\n" + subtext + "\n)"
